@@ -39,9 +39,12 @@ claim("C20", "proof", T1 + " (token-stream ghost state; lenient abstraction of n
       "(tokens left) + (0 if eof else 1) -- no input can hang them; the NEWICK recursive descent (NewickReader._parse_tree_statement, "
       "_parse_tree_node_description incl. its unbounded `for count in it.count()` loop, tree_iter, the one-tree-at-a-time iterators of both formats) makes "
       "progress in every loop and recurses only on a strictly smaller measure, and a statement is completed / a tree returned only after a "
-      "token was consumed; no method is called on a token that may be None; every raise statement of the "
+      "token was consumed; one level down, the tokenizer itself (Tokenizer.__next__ with its recursive call, _skip_to_significant_char, _handle_comment, "
+      "next_token, require_next_token) returns or raises on every character stream for every configuration of its delimiter sets; "
+      "no method is called on a token that may be None; every raise statement of the "
       "reader modules is of the DataParseError family. Bounded (T2): every truncation and single edit of valid documents, all four formats.",
-      "tokenizer primitives (constructor, next_token*, require_next_token*, is_eof, comment pulls) are ASSUMED contracts validated at run time; "
+      "the FUNCTIONAL contracts of the tokenizer primitives (which token comes next; constructor, is_eof, comment pulls) are ASSUMED and validated at run time, "
+      "their termination is proved; the character stream (src.read(1)) is an ASSUMED contract; "
       "non-token code is abstracted (assumed to terminate and to raise only parse errors -- four internal errors found there by the bounded part "
       "were repaired); well-founded recursion is the mathematical statement, Python's recursion limit (recorded finding) and the PHYLIP/FASTA "
       "readers are bounded only",
